@@ -371,9 +371,9 @@ pub fn def() -> PropDef {
         rule: "catalogue: the case index enumerates socket kind (9) x stage {first bytes, after a valid greeting, after a valid handshake} x 24 structure-aware attacks (truncated/oversized commands, property lengths beyond the frame, non-UTF-8 names, 64-bit sizes 2^31..2^64-1 on message and command frames, thousands of MORE frames in one segment, bad signature/version/mechanism, reserved flags, random bytes), first undisturbed then under drawn transport/schedule, with and without a closing attacker; alphabet: all 19607 strings of length <= 5 over {00,01,02,04,06,05,ff} x {after greeting, after handshake} (thorough: enumerated; quick: sampled); mutated: random mutations of a valid stream; a healthy peer exchanges tagged traffic before and after; oracles: no panic in any task or API call, worker process survives (stack overflow / abort are seen as signals by the driver), largest single allocation after the first hostile byte <= 256 KiB + 64 x bytes sent, healthy traffic still delivered; non-trivial = judgement reached; distinct = distinct (case, plan, schedule, transport)",
         assumptions: &["run thread stack 2 MiB (tokio's worker default) and the library built unoptimised with debug assertions: both are documented parameters of the stack-depth clause", "allocation failure itself is not injected; the size of requests is judged"],
         strata: vec![
-            Stratum { name: "catalogue", quick: 27 * NATTACKS * 8, thorough: 27 * NATTACKS * 200, exhaustive: (true, true), run: catalogue, what: "kind x stage x attack catalogue" },
+            Stratum { name: "catalogue", quick: 27 * NATTACKS * 8, thorough: (27 * NATTACKS * 200) * 10, exhaustive: (true, true), run: catalogue, what: "kind x stage x attack catalogue" },
             Stratum { name: "alphabet", quick: 30_000, thorough: NALPHA * 2 * 2, exhaustive: (false, true), run: alphabet, what: "all strings <= 5 over a reduced alphabet of flag/length/command bytes" },
-            Stratum { name: "mutated", quick: 100_000, thorough: 1_500_000, exhaustive: (false, false), run: mutated, what: "random mutations of valid streams" },
+            Stratum { name: "mutated", quick: 100_000, thorough: (1_500_000) * 8, exhaustive: (false, false), run: mutated, what: "random mutations of valid streams" },
         ],
     }
 }
